@@ -5,6 +5,7 @@ import (
 	"errors"
 	"fmt"
 	"math/rand"
+	"os"
 	"path/filepath"
 	"strings"
 
@@ -27,6 +28,9 @@ type c08Case struct {
 	Prior    [][]string `json:"prior"`   // prior contents per source
 	HistSize string     `json:"histsize"`
 	Calls    []c08Call  `json:"calls"`
+	// file sources: cut this many bytes off the end of the file after the prior entries were
+	// written (a previous process died in the middle of its last append), then open it
+	Torn []int `json:"torn,omitempty"`
 }
 
 type countSrc struct {
@@ -75,6 +79,11 @@ func c08Gen(r *rand.Rand, tier string, idx int) any {
 			p = append(p, l)
 		}
 		c.Prior = append(c.Prior, p)
+		cut := 0
+		if n > 0 && r.Intn(4) == 0 {
+			cut = 1 + r.Intn(12)
+		}
+		c.Torn = append(c.Torn, cut)
 	}
 	nc := 1 + r.Intn(4)
 	for i := 0; i < nc; i++ {
@@ -117,6 +126,7 @@ func c08Run(env *fw.Env, raw json.RawMessage) fw.Outcome {
 	var o fw.Out
 	var srcs []readline.History
 	var counting *countSrc
+	files := map[int]string{}
 	cfg := c.cfg()
 	cfg.Setup = func(s *sess.Session) {
 		for i, kind := range c.Sources {
@@ -125,13 +135,27 @@ func c08Run(env *fw.Env, raw json.RawMessage) fw.Outcome {
 			case "memory":
 				h = readline.NewInMemoryHistory()
 			case "file":
-				h, _ = readline.NewHistoryFromFile(filepath.Join(s.Dir, fmt.Sprintf("hist%d", i)))
+				path := filepath.Join(s.Dir, fmt.Sprintf("hist%d", i))
+				h, _ = readline.NewHistoryFromFile(path)
+				for _, l := range c.Prior[i] {
+					h.Write(l)
+				}
+				if i < len(c.Torn) && c.Torn[i] > 0 {
+					if st, err := os.Stat(path); err == nil && st.Size() > int64(c.Torn[i]) {
+						os.Truncate(path, st.Size()-int64(c.Torn[i]))
+					}
+				}
+				// the source as a new process finds it
+				h, _ = readline.NewHistoryFromFile(path)
+				files[i] = path
 			default:
 				counting = &countSrc{}
 				h = counting
 			}
-			for _, l := range c.Prior[i] {
-				h.Write(l)
+			if kind != "file" {
+				for _, l := range c.Prior[i] {
+					h.Write(l)
+				}
 			}
 			srcs = append(srcs, h)
 			s.Sh.History.Add(fmt.Sprintf("src%d-%s", i, kind), h)
@@ -255,6 +279,20 @@ func c08Run(env *fw.Env, raw json.RawMessage) fw.Outcome {
 				}
 			}
 		}
+		// a file-backed source is its file: what a new process would load is what the source holds
+		for si, path := range files {
+			if re, err := readline.NewHistoryFromFile(path); err == nil {
+				o.O.Events++
+				o.Add("file_sources_reloaded_from_disk", 1)
+				if onDisk, inMem := dumpSrc(re), dumpSrc(srcs[si]); !eqStrings(onDisk, inMem) {
+					cls := "intact-file"
+					if si < len(c.Torn) && c.Torn[si] > 0 {
+						cls = "file-with-a-torn-last-record"
+					}
+					o.Viol("file-source-on-disk-differs-from-the-source|"+cls, ctx+fmt.Sprintf(" source %d: the open source holds %d entries (newest %q), the file reloaded %d entries (newest %q)", si, len(inMem), lastOf(inMem), len(onDisk), lastOf(onDisk)))
+				}
+			}
+		}
 		if counting != nil && counting.writes-w0 > 1 {
 			o.Viol("source-written-more-than-once-per-accept", ctx+fmt.Sprintf(" Write called %d times", counting.writes-w0))
 		}
@@ -278,7 +316,7 @@ func init() {
 		ID:        "C08",
 		Level:     "exploration",
 		NeedsTerm: true,
-		Rule: "1-3 bound history sources (in-memory, file-backed, a harness source counting Write calls) with prior contents of 0-11 entries, history-size in {unset, 0, 3, 10, 1000} via INPUTRC, and 1-4 consecutive Readline calls on the same Shell; each call types a line (plain, padded, blank, duplicate of a source's newest/older entry, Unicode, multi-line through AcceptMultiline) and leaves through accept-line / accept-and-hold / multi-line accept / operate-and-get-next / accept-and-infer-next-history / C-c / C-d; oracle per source from the before/after contents: exactly one append of the trimmed line for ordinary accepts unless blank or equal to that source's newest entry; unchanged for errors and replaying accepts; with a limit N, len < N must record, len >= N either. " +
+		Rule: "1-3 bound history sources (in-memory, file-backed, a harness source counting Write calls) with prior contents of 0-11 entries (one file source in four has its last record torn by 1-12 bytes, as after a crash in the middle of an append, and is opened as a new process finds it; after every call a file source is reloaded from disk and must equal the open source), history-size in {unset, 0, 3, 10, 1000} via INPUTRC, and 1-4 consecutive Readline calls on the same Shell; each call types a line (plain, padded, blank, duplicate of a source's newest/older entry, Unicode, multi-line through AcceptMultiline) and leaves through accept-line / accept-and-hold / multi-line accept / operate-and-get-next / accept-and-infer-next-history / C-c / C-d; oracle per source from the before/after contents: exactly one append of the trimmed line for ordinary accepts unless blank or equal to that source's newest entry; unchanged for errors and replaying accepts; with a limit N, len < N must record, len >= N either. " +
 			"distinct non-trivial = distinct (variant, source kind, line class, size class, number of sources) tuples",
 		Assumptions: []string{"Emacs mode", "a held or inferred line left in the buffer by the previous call is cleared (C-a C-k) before typing"},
 		N: func(tier string) int {
